@@ -14,7 +14,7 @@
 (* IdBeforeSkip / FwdDirOnce = FALSE are the two defects of the pinned tree *)
 (* (sanity configurations that TLC must reject).                            *)
 (***************************************************************************)
-EXTENDS Integers, Sequences, FiniteSets, TLC
+EXTENDS Integers, Sequences, FiniteSets, TLC, Json, IOUtils
 CONSTANTS IdBeforeSkip, FwdDirOnce
 
 \* universe in walk order; L carries the listing file's name (".fsutil-metadata" sorts before "a")
@@ -61,4 +61,19 @@ ForwardedIsProjection == Result.fwd = Projection
 IdsAreStatPositions ==
   \A k \in DOMAIN stream : (stream[k].p \in sel /\ ~stream[k].dir /\ stream[k].p # L)
                              => (stream[k].p \in DOMAIN Result.files /\ Result.files[stream[k].p] = PosOf(stream[k].p))
+
+\* ---- case generation for the metadata-only driver (configuration _gen): one file per (stream, selector) with what the
+\* model's run forwards to the diff and the ids it records; the driver performs the transfer on the real Send / Receive
+\* and the monitor (SyncTrace!MetaClauses, clause MODEL.metaStackOutcomeDiffers) compares destination and request ids
+InStream(i) == \E k \in DOMAIN stream : stream[k].p = Universe[i].p
+Bits(f(_)) == LET b(i) == IF f(i) THEN "1" ELSE "0" IN b(1) \o b(2) \o b(3) \o b(4) \o b(5) \o b(6)
+InSel(i) == Universe[i].p \in sel
+SelSeq == SelectSeq([k \in DOMAIN stream |-> stream[k].p], LAMBDA p : p \in sel)
+IdSeq == LET ps == SelectSeq([k \in DOMAIN stream |-> stream[k].p], LAMBDA p : p \in DOMAIN Result.files) IN
+         [k \in DOMAIN ps |-> Result.files[ps[k]]]
+GenCases ==
+  ndJsonSerialize(IOEnv.VERIF_GEN_DIR \o "/metacase_" \o Bits(InStream) \o "_" \o Bits(InSel) \o ".ndjson",
+     <<[name |-> Bits(InStream) \o "_" \o Bits(InSel),
+        stream |-> [k \in DOMAIN stream |-> [p |-> stream[k].p, dir |-> stream[k].dir]],
+        sel |-> SelSeq, fwd |-> Result.fwd, ids |-> IdSeq]>>)
 =============================================================================
